@@ -99,6 +99,10 @@ class AsymmetricStepSolver(ScaledStepSolver):
             format="csr",
         )
 
+        # entries of hess + lamb * I may cancel exactly: keep the diagonal
+        # structurally present, the rows of active variables are rewritten in place
+        deriv.setdiag(deriv.diagonal())
+
         self.overwrite_active_rows(deriv)
 
         assert deriv.dtype == self.params.dtype
